@@ -31,6 +31,14 @@ P = {
          'For every tree and argv: no path reaches a CommandFn without passing the required gate of the selected node on its nil edge; help bypasses the gate and never reaches the user function; CheckRequired is non-nil exactly for required-and-not-called.'),
  'C12': (True, 'other', 'who-may-call of os.Getenv, CHA call-graph reachability from Parse/Dispatch (no modifier, no named environment read), definer order (default before modifiers), shape of the GetEnv modifier (guards, kinds, verbatim Save, SetCalled(name))',
          'The environment can only be applied at definition time, after the default was stored and before any command-line Save; the modifier handles the seven scalar kinds, saves the text verbatim (bool: true/false only), ignores empty values and records the variable name as CalledAs.'),
+ 'C13': (True, 'other', 'who-may-access of Vertex.status (goroutine confinement), exhaustive finite evaluation of the readiness predicate over the four status values with boolean-phi tracking, must-pass-through for the in-progress mark, retry-loop shape, exactly-one-send per goroutine path',
+         'For every schedule: the status is only touched by the scheduler goroutine; a vertex is offered only when pending/skip and no child is pending or in progress (all 4x2 child-status/flag cases evaluated); it is marked before the next offer; Task.Fn has one call site in a loop of at most Retries+1 attempts that stops at the first nil; each goroutine reports exactly once with the last error. Memory-model visibility is trusted.'),
+ 'C14': (True, 'other', 'dominance of the error-list-empty edge over the task launch, append-only discipline of the error list, path exploration of the cancellation arm, completion-arm shape (wrapping with %w, ErrorSkipParents propagation, structural recursion of skipParents), branch payloads, result shape, edge symmetry',
+         'On every path of the scheduler: no task goroutine is launched once an error or cancellation was recorded, the list only grows, failures are wrapped and recorded, skip propagation reaches every transitive dependent, gated tasks report ErrorTaskSkipped, Run returns the list iff non-empty. "In-flight tasks may finish" (liveness) not decided.'),
+ 'C15': (True, 'other', 'lock/semaphore pairing on go/ssa (acquire must-pass-through before Task.Fn, release only deferred), capacity provenance (maxParallel, positive writers), critical-section check around the output writer, finite evaluation of the serial scan',
+         'The structural conditions that make the channel-semaphore and mutex arguments go through hold on every path; in serial mode nothing is offered while any vertex is in progress. The bound itself follows from channel/mutex semantics (trusted).'),
+ 'C16': (True, 'other', 'dominance of the cycle check, insert-only rule for the vertex table, exactly-one completion per goroutine, finite evaluation of the done counter, launch must-pass-through, edge symmetry, three-colour DFS shape',
+         'Necessary conditions for termination and for cycle rejection on every path and for every construction order of the graph (the insert-only rule is what the AddTask-after-TaskDependsOn defect violated). Liveness itself (Run returns, work conservation) is not decided.'),
 }
 NOT_YET = 'static check for this property is not built yet (work in progress; see DESIGN.md section 4 for the planned rules)'
 checks, na = [], []
